@@ -704,6 +704,18 @@ example :
     (s.loc 2).pc = .done 0 .wrote ∧ (s.loc 0).pc = .done 0 .reused ∧ (s.loc 1).pc = .done 0 .reused ∧
     (s.fs ⟨1, 0⟩).map (·.writers) = some [2] := by decide
 
+/-- A sequential HISTORY with a per-run scheme (`cfg r .mode` is the scheme run `r` REQUESTED): 'single' A,
+'multiple' A, 'multiple' B, 'single' A, 'single' B.  The 'multiple' runs are covered by `C29_multiple_fresh`, the
+'single' ones by `C29_single_safe` (both hold for every mix of schemes); this instance is the one the harness
+replays through `psyclone.generator.generate`.  That the scheme (and output directory, API) a real run USES is
+the one it requested - Config is a process-wide singleton - is NOT a Lean theorem: it is established by the
+end-to-end history family of the harness (harness/props/c29_hist.py). -/
+example :
+    let s := run (cfgOf [⟨.single, 1, 1⟩, ⟨.multiple, 1, 1⟩, ⟨.multiple, 1, 2⟩, ⟨.single, 1, 1⟩, ⟨.single, 1, 2⟩])
+      (init emptyFS) ([0, 1, 2, 3, 4].flatMap (List.replicate 8))
+    (s.loc 0).pc = .done 0 .wrote ∧ (s.loc 1).pc = .done 1 .wrote ∧ (s.loc 2).pc = .done 2 .wrote ∧
+    (s.loc 3).pc = .done 0 .reused ∧ (s.loc 4).pc = .done 0 .failed := by decide
+
 /-- Run-local steps commute with the steps of every other run: the reduced enumeration of interleavings
 (local steps glued to the preceding file-system step) reaches the same states as the full one. -/
 theorem C29_local_commutes (cfg : RunId → Cfg) (s : State) (r r' : RunId) (hne : r ≠ r')
